@@ -151,7 +151,8 @@ def gen_case(rng):
     base = gen.gen_mixed_portfolio(rng, kinds=kinds, grid_kw={'steps': (4, 24), 'dst': bool(rng.random() < 0.45)}, n_assets=(2, 5), n_nodes=(1, 3))
     spec = gen.strip_private(base)
     for a in spec['assets']:
-        for k in ('start_ramp_lower_bounds', 'start_ramp_upper_bounds', 'shutdown_ramp_lower_bounds', 'shutdown_ramp_upper_bounds', 'ramp_freq'):
+        for k in ('start_ramp_lower_bounds', 'start_ramp_upper_bounds', 'shutdown_ramp_lower_bounds', 'shutdown_ramp_upper_bounds', 'ramp_freq', 'start_ramp_lower_bounds_heat',
+                  'start_ramp_upper_bounds_heat', 'shutdown_ramp_lower_bounds_heat', 'shutdown_ramp_upper_bounds_heat'):
             a.pop(k, None)          # ramp profiles are outside C12 (see assumptions)
     return spec
 
